@@ -855,6 +855,7 @@ def mat_eq(A, B):
     """normal-form equality as one boolean (coefficients compared by the solver)"""
     if not (isinstance(A, Mat) and isinstance(B, Mat)):
         raise Unsupported("mat_eq on non-abstract values")
+    ctx().matrix_compare = True          # (a mismatch of normal forms is "not proved equal", not a counter-example: see run.py)
     if A.vec != B.vec or not dim_eq(A.rows, B.rows) or not dim_eq(A.cols, B.cols):
         return False
     conds = []
